@@ -19,6 +19,7 @@ type dmgObs struct {
 	Val     int      `json:"val"`
 	OpenErr string   `json:"open_err,omitempty"`
 	Gets    []getOut `json:"gets,omitempty"`
+	Gets2   []getOut `json:"gets2,omitempty"` // every key asked a second time on the same reader (only the answers that differ from the first)
 	Scan    scanOut  `json:"scan"`
 	From    scanOut  `json:"from"`
 	Range   scanOut  `json:"range"`         // ScanRange over the whole key space
@@ -33,6 +34,7 @@ type c09Case struct {
 	OptSwap  bool    `json:"opt_swap,omitempty"` // the two options in the other order
 	Stacked  bool    `json:"stacked,omitempty"`  // read through a SuperSSTableReader over an older table holding other values for the same keys
 	Vals     []int   `json:"vals"`               // replacement values; -1 = flip lowest bit, -2 = flip highest bit
+	Big      bool    `json:"big,omitempty"`      // thousands of records; a sample of damages, most of them in the last part of the file
 	// observations
 	Data   []byte   `json:"data"`
 	Index  []byte   `json:"index"`
@@ -86,6 +88,19 @@ func (c *c09Case) observe(dir string, data []byte, ob *dmgObs) {
 			}
 			ob.Gets = append(ob.Gets, g)
 		}
+		// the same lookups again: a reader must not remember a failed check as done
+		for i, kv := range c.KVs {
+			g := getOut{K: kv.K}
+			v, err := r.Get(kv.K)
+			if err != nil {
+				g.Err = classifyErr(err)
+			} else {
+				g.V, g.Nil = append([]byte{}, v...), v == nil
+			}
+			if f := ob.Gets[i]; f.Err != g.Err || f.Nil != g.Nil || !bytes.Equal(f.V, g.V) {
+				ob.Gets2 = append(ob.Gets2, g)
+			}
+		}
 		it, err := r.Scan()
 		ob.Scan = drainTable(it, err, len(c.KVs)+2)
 		it, err = r.ScanStartingAt([]byte{})
@@ -119,6 +134,10 @@ func (c *c09Case) Exec() {
 	}
 	c.Data, c.Index = readFileOr(dir, sstables.DataFileName), readFileOr(dir, sstables.IndexFileName)
 	c.IdxPay = indexEntries(dir)
+	if c.Big {
+		c.execBig(dir)
+		return
+	}
 	// single byte alterations at every offset
 	for pos := 0; pos < len(c.Data); pos++ {
 		for _, v := range c.Vals {
@@ -154,6 +173,32 @@ func (c *c09Case) Exec() {
 		mod = append(mod, c.Data[e:]...)
 		ob := dmgObs{Kind: "swap", Pos: i, Mod: mod}
 		c.observe(dir, mod, &ob)
+		c.Obs = append(c.Obs, ob)
+	}
+}
+
+// execBig: a sample of alterations and cuts, three quarters of them in the last fifth of the data file
+func (c *c09Case) execBig(dir string) {
+	rr := rand.New(rand.NewSource(int64(len(c.Data))))
+	n := len(c.Data)
+	pick := func() int {
+		if rr.Intn(4) == 0 {
+			return 8 + rr.Intn(n-8)
+		}
+		return n - 1 - rr.Intn(n/5)
+	}
+	for i := 0; i < 40; i++ {
+		pos := pick()
+		nv := c.Data[pos] ^ byte(1<<uint(rr.Intn(8)))
+		mod := append([]byte{}, c.Data...)
+		mod[pos] = nv
+		ob := dmgObs{Kind: "byte", Pos: pos, Val: int(nv)}
+		c.observe(dir, mod, &ob)
+		c.Obs = append(c.Obs, ob)
+	}
+	for i := 0; i < 16; i++ {
+		ob := dmgObs{Kind: "cut", Pos: pick()}
+		c.observe(dir, c.Data[:ob.Pos], &ob)
 		c.Obs = append(c.Obs, ob)
 	}
 }
@@ -220,6 +265,13 @@ func (c *c09Case) oracle(exemptZeroCRC bool) (bool, string) {
 				}
 			}
 		}
+		for _, g := range ob.Gets2 {
+			if g.Err == "" {
+				if ok, m := chk(g.K, g.V, g.Nil, "the second Get"); !ok {
+					return false, m
+				}
+			}
+		}
 		for _, kv := range ob.Scan.KVs {
 			if ok, m := chk(kv.K, kv.val(), kv.Nil, "Scan"); !ok {
 				return false, m
@@ -240,7 +292,7 @@ func (c *c09Case) oracle(exemptZeroCRC bool) (bool, string) {
 }
 
 func (c *c09Case) Sx() string {
-	if c.Fatal != "" || c.DataComp != 0 || (c.Loader != "" && c.Loader != "slice") || c.Stacked {
+	if c.Fatal != "" || c.DataComp != 0 || (c.Loader != "" && c.Loader != "slice") || c.Stacked || c.Big {
 		return ""
 	}
 	var obs []string
@@ -319,6 +371,23 @@ func genC09(r *rand.Rand, tier string) []Case {
 		c := &c09Case{DataComp: []int{0, 2}[i%2], OnRead: true, OptSwap: i < 2, Stacked: i >= 2, Loader: "slice", Vals: []int{-1, -2, 0x00, 0xff}}
 		for j := 0; j < 4; j++ {
 			c.KVs = append(c.KVs, tblKV{K: []byte(fmt.Sprintf("key-%02d", j)), V: []byte(fmt.Sprintf("new-value-%02d-%s", j, strings.Repeat("x", r.Intn(12))))})
+		}
+		cases = append(cases, c)
+	}
+	// tables of thousands of records (any size-dependent strategy of the load-time validation), record counts that are
+	// not multiples of a power of two
+	nbig := 2
+	if tier == "thorough" {
+		nbig = 12
+	}
+	for i := 0; i < nbig; i++ {
+		c := &c09Case{DataComp: []int{0, 2}[i%2], OnRead: i%4 == 3, Loader: "slice", Big: true}
+		nk := 2049 + r.Intn(3000)
+		if nk%1024 < 100 {
+			nk += 300
+		}
+		for j := 0; j < nk; j++ {
+			c.KVs = append(c.KVs, tblKV{K: []byte(fmt.Sprintf("key-%05d", j)), V: []byte(fmt.Sprintf("v%d-%d", j, r.Intn(1000)))})
 		}
 		cases = append(cases, c)
 	}
